@@ -2,6 +2,8 @@
 use crate::prng::Rng;
 use crate::run::Case;
 
+pub mod c02;
+pub mod c03;
 pub mod c08;
 
 #[derive(Clone, Copy, PartialEq, Debug)]
@@ -26,7 +28,7 @@ pub struct PropDef {
 }
 
 pub fn all() -> Vec<PropDef> {
-    vec![c08::def()]
+    vec![c02::def(), c03::def(), c08::def()]
 }
 
 pub fn find(id: &str) -> Option<PropDef> {
